@@ -4,6 +4,7 @@ import (
 	"encoding/json"
 	"errors"
 	"fmt"
+	"math"
 	"reflect"
 	"strings"
 
@@ -38,7 +39,7 @@ type namedVal struct {
 }
 
 func c06Keywords() []namedVal {
-	return []namedVal{{`"k"`, "k"}, {`"j"`, "j"}, {`""`, ""}, {"Stringer(S)", strer{"S"}}, {"42", 42}, {"nil", nil}, {"enumKw(0)", enumKw(0)}, {"enumKw(1)", enumKw(1)}}
+	return []namedVal{{`"k"`, "k"}, {`"j%d"`, "j%d"}, {`""`, ""}, {"Stringer(S)", strer{"S"}}, {"42", 42}, {"nil", nil}, {"enumKw(0)", enumKw(0)}, {"enumKw(1)", enumKw(1)}}
 }
 
 func c06Operators() []namedVal {
@@ -65,6 +66,7 @@ func c06Expressions() []struct {
 		// a NOT stack as expression: rendered as the stack renders itself (the word NOT belongs to a parent STACK)
 		// an empty Stack is a Stack (not "no expression"); a complex64 whose parts are no binary fractions
 		{"List()", func() any { return stackage.List() }}, {"complex64(0.1+0.2i)", func() any { return complex64(complex(0.1, 0.2)) }},
+		{"uint64(max)", func() any { return uint64(math.MaxUint64) }}, {"int64(min)", func() any { return int64(math.MinInt64) }}, {`"100%s"`, func() any { return "100%s" }},
 		{"Not(z)", func() any { return stackage.Not().Push("z") }}, {"Not()paren(x=y)", func() any { return stackage.Not().SetParen(true).Push(stackage.Cond("x", stackage.Eq, "y")) }},
 	}
 }
@@ -160,6 +162,9 @@ type condOp struct {
 	run     func(in *condInst)
 }
 
+// c06QuickAlphabet is set from the tier before any machine is built (run and replay alike).
+var c06QuickAlphabet bool
+
 func c06Ops(variant ...string) []condOp {
 	var ops []condOp
 	deepEnc := len(variant) > 0 && variant[0] == "encapsulation"
@@ -169,6 +174,22 @@ func c06Ops(variant ...string) []condOp {
 		*in = condInst{c: in.c, live: true, by: in.by, byWant: in.byWant, hasBy: in.hasBy}
 	}
 	exs := c06Expressions()
+	if c06QuickAlphabet {
+		// the quick tier leaves out expressions whose class is represented by another one (a second alias form,
+		// a second numeric extreme, a second text with a fmt verb); the thorough tier runs them all
+		var few []struct {
+			n  string
+			mk func() any
+		}
+		for _, e := range exs {
+			switch e.n {
+			case "int64(min)", `"100%s"`, "true", "CondAlias(x>y)", "aliasS(And(a,b))":
+				continue
+			}
+			few = append(few, e)
+		}
+		exs = few
+	}
 	for _, kw := range c06Keywords() {
 		for _, op := range c06Operators() {
 			for _, ex := range exs {
@@ -288,9 +309,9 @@ func c06Ops(variant ...string) []condOp {
 			}
 		}})
 	}
-	addEnc("SetEncap(')", [][]string{{"'"}}, "'")
+	addEnc("SetEncap(%)", [][]string{{"%"}}, "%") // (text that means something to fmt is text like any other)
 	addEnc("SetEncap([< >])", [][]string{{"<", ">"}}, []string{"<", ">"})
-	addEnc("SetEncap([[ ]])", [][]string{{"[", "]"}}, []string{"[", "]"})
+	addEnc("SetEncap([{% %}])", [][]string{{"{%", "%}"}}, []string{"{%", "%}"})
 	addEnc("SetEncap(|,[{ }])", [][]string{{"|"}, {"{", "}"}}, "|", []string{"{", "}"})
 	// single characters that are also halves of the pairs above: a pair refused because ONE half is taken
 	// leaves the other half free
@@ -423,6 +444,7 @@ func c06Machine(c *Ctx, variant ...string) *Machine[*condInst] {
 
 func init() {
 	register(&Check{ID: "C06", Engine: "A", Run: func(c *Ctx) {
+		c06QuickAlphabet = c.Quick()
 		me := c06Machine(c, "encapsulation")
 		if c.Quick() {
 			me.MaxDepth = 5 // eight schemes: every order of up to four of them after the constructor (the thorough tier runs to the fix-point)
@@ -440,6 +462,7 @@ func init() {
 	}, Replay: func(c *Ctx, raw json.RawMessage) {
 		var hc histCase
 		json.Unmarshal(raw, &hc)
+		c06QuickAlphabet = c.Quick()
 		if strings.HasSuffix(hc.Machine, " encapsulation") {
 			replayHistory(c, c06Machine(c, "encapsulation"), hc.History, hc.Observed)
 			return
